@@ -278,7 +278,7 @@ func (v *fnVC) oblige(kind, name string, props []string, clause string, pos stri
 	// after the check, the fact may be assumed
 	if t := tImp(reach, goal); t.S != "true" {
 		v.e.seq++
-		v.e.cmds = append(v.e.cmds, cmd{v.e.seq, "(assert " + t.S + ")", true, v.e.curBlk})
+		v.e.cmds = append(v.e.cmds, cmd{seq: v.e.seq, text: "(assert " + t.S + ")", obl: true, blk: v.e.curBlk})
 	}
 }
 
@@ -377,7 +377,7 @@ func (w *World) verifyFunc(fn *ssa.Function, ct *Contract, safetyProps []string)
 	if ct != nil {
 		x := v.exFor(v.entry, v.entry, nil)
 		for _, c := range ct.Requires {
-			e.assume(x.Bool(c.Expr))
+			e.assumeTagged(x.Bool(c.Expr), c.Props)
 		}
 	}
 	for _, b := range v.order {
@@ -442,6 +442,10 @@ func (v *fnVC) exFor(cur, old *State, extra map[string]*T) *Ex {
 		if strings.Contains(k, "$") {
 			x.vars[strings.ReplaceAll(k, "$", "_S_")] = t
 		}
+	}
+	if rng := v.mapRange(); rng != nil {
+		x.visHeap = visitedHeap(rng)
+		x.visKey = v.e.sortOf(rng.X.Type().Underlying().(*types.Map).Key())
 	}
 	if v.ct != nil && v.ct.YieldN != "" && cur != nil {
 		x.vars["yielded"] = cur.get(ghostYielded, sI64)
@@ -764,7 +768,35 @@ func (v *fnVC) havocWrites(in ssa.Instruction, st *State, pre *State) {
 		v.havocCallWrites(i, st)
 	case *ssa.Next:
 		hv("iter$"+in.(*ssa.Next).Iter.Name(), sInt)
+		if rng, ok := i.Iter.(*ssa.Range); ok {
+			if mt, ok := rng.X.Type().Underlying().(*types.Map); ok {
+				hv(visitedHeap(rng), arrSort(v.e.sortOf(mt.Key()), sBool))
+			}
+		}
 	}
+}
+
+// visitedHeap names the ghost set of keys a map range has already yielded.
+func visitedHeap(rng *ssa.Range) string { return "RV$" + sanitize(rng.Name()) }
+
+// mapRange returns the function's map range instruction if it has exactly one.
+func (v *fnVC) mapRange() *ssa.Range {
+	var found *ssa.Range
+	n := 0
+	for _, b := range v.fn.Blocks {
+		for _, in := range b.Instrs {
+			if r, ok := in.(*ssa.Range); ok {
+				if _, isMap := r.X.Type().Underlying().(*types.Map); isMap {
+					found = r
+					n++
+				}
+			}
+		}
+	}
+	if n == 1 {
+		return found
+	}
+	return nil
 }
 
 func (v *fnVC) havocType(t types.Type, hv func(string, *Sort)) {
